@@ -17,7 +17,7 @@ type moneyOracle struct {
 	taint map[string]bool
 }
 
-func newMoneyOracle() *moneyOracle { return &moneyOracle{taint: map[string]bool{}} }
+func newMoneyOracle() *moneyOracle  { return &moneyOracle{taint: map[string]bool{}} }
 func (o *moneyOracle) Name() string { return "money" }
 func (o *moneyOracle) End(e *Env)   {}
 
